@@ -5,6 +5,9 @@ import Mathlib.Algebra.BigOperators.Group.Finset.Basic
 import Mathlib.Algebra.BigOperators.Ring.Finset
 import Mathlib.Algebra.Field.Basic
 import Mathlib.Data.Rat.Defs
+import Mathlib.Data.Rat.Floor
+import Mathlib.Data.Rat.Cast.Order
+import Mathlib.Tactic.Positivity
 import Mathlib.Analysis.SpecialFunctions.Sqrt
 import Mathlib.Tactic.Ring
 import Mathlib.Tactic.FieldSimp
@@ -22,11 +25,285 @@ open Finset
 
 set_option linter.unusedSectionVars false
 set_option linter.unusedVariables false
+set_option linter.unusedSimpArgs false
 
 namespace CuqiVerif.C17
 open CuqiVerif.C07
 
 variable {K : Type} [Field K]
+
+/-! ## Deconvolution1D: documented operator, assembled matrix -/
+
+lemma extPos_range (m : Ext) (n : ℕ) (hn : 0 < n) (t k : ℤ) (h : extPos m n t = some k) : 0 ≤ k ∧ k < n := by
+  have hnz : (0 : ℤ) < n := by exact_mod_cast hn
+  cases m with
+  | constant =>
+    simp only [extPos] at h
+    split_ifs at h with hc
+    · cases h; exact hc
+  | wrap =>
+    simp only [extPos, Option.some.injEq] at h
+    subst h
+    exact ⟨Int.emod_nonneg _ (ne_of_gt hnz), Int.emod_lt_of_pos _ hnz⟩
+  | nearest =>
+    simp only [extPos, Option.some.injEq] at h
+    subst h
+    split_ifs <;> omega
+  | reflect =>
+    simp only [extPos, Option.some.injEq] at h
+    subst h
+    have h2 : (0 : ℤ) < 2 * n := by omega
+    have a := Int.emod_nonneg t (ne_of_gt h2)
+    have b := Int.emod_lt_of_pos t h2
+    split_ifs <;> omega
+  | mirror =>
+    simp only [extPos] at h
+    by_cases h1 : n = 1
+    · rw [if_pos h1] at h; cases h; omega
+    · rw [if_neg h1] at h
+      simp only [Option.some.injEq] at h
+      subst h
+      have hn2 : (2 : ℤ) ≤ n := by omega
+      have h2 : (0 : ℤ) < 2 * n - 2 := by omega
+      have a := Int.emod_nonneg t (ne_of_gt h2)
+      have b := Int.emod_lt_of_pos t h2
+      split_ifs <;> omega
+
+variable {R : Type} [CommRing R]
+
+lemma sum_hit_mul (m : Ext) (n : ℕ) (hn : 0 < n) (t : ℤ) (x : ℕ → R) :
+    ∑ w ∈ range n, (hit m n t w : R) * x w = extend m n x t := by
+  unfold extend hit
+  cases h : extPos m n t with
+  | none => simp
+  | some k =>
+    obtain ⟨h0, h1⟩ := extPos_range m n hn t k h
+    have hk : (k.toNat : ℤ) = k := Int.toNat_of_nonneg h0
+    rw [Finset.sum_eq_single k.toNat]
+    · simp [hk]
+    · intro b _ hb
+      have : ¬ (some k = some (b : ℤ)) := by
+        intro e; apply hb; cases e; simp
+      simp [this]
+    · intro hmem
+      exact absurd (mem_range.mpr (by omega)) hmem
+
+/-- **deconv1d_documented_matrix.**  The matrix `conv1` (C07's transcription of
+    `scipy.ndimage.convolve1d`) acts on every signal as the *documented* operator: the convolution of
+    the signal, extended by the stated boundary rule, with the stated PSF.  All five rules, all sizes. -/
+theorem deconv1d_documented_matrix (m : Ext) (s n : ℕ) (hn : 0 < n) (P x : ℕ → R) (u : ℕ) :
+    (conv1 m s P n).apply x u = docConv1 m s P n x u := by
+  rw [apply_eq]
+  simp only [conv1, docConv1, sumTo_eq_sum]
+  simp only [Finset.sum_mul]
+  rw [Finset.sum_comm]
+  refine Finset.sum_congr rfl fun a _ => ?_
+  simp only [mul_assoc]
+  rw [← Finset.mul_sum, sum_hit_mul m n hn]
+
+example : docConv1 .constant 3 (fun a => ((a : ℕ) : ℤ) + 1) 6 (fun k => (k : ℤ)) 0 = 1 := by decide
+
+/-- **deconv1d_assembled_transposed.**  What `Deconvolution1D` stores and applies is the *transpose* of
+    the documented operator: `(A x)[u] = Σ_j C[j,u] · x[j]` with `C` the documented convolution matrix —
+    a correlation with the PSF instead of a convolution. -/
+theorem deconv1d_assembled_transposed (m : Ext) (s n : ℕ) (P x : ℕ → R) (u : ℕ) (hu : u < n) :
+    (deconv1dMatrix m s P n).apply x u = ∑ j ∈ range n, (conv1 m s P n).e j u * x j := by
+  rw [apply_eq]
+  refine Finset.sum_congr rfl fun j hj => ?_
+  congr 1
+  show (conv1 m s P n).apply (unit u) j = _
+  rw [apply_eq]
+  exact sum_mul_unit _ _ _ hu
+
+/-- **deconv1d_assembled_eq_documented_partial.**  Hypothesis forced by the proof: the documented
+    operator must be symmetric.  For periodic or zero boundary and an odd, reversal-symmetric PSF it
+    is, and then the stored matrix applied to any signal is the documented convolution. -/
+theorem deconv1d_assembled_eq_documented_partial (m : Ext) (hm : m = .wrap ∨ m = .constant) (k n : ℕ) (hn : 0 < n)
+    (P x : ℕ → R) (hP : ∀ a, a < 2 * k + 1 → P (2 * k + 1 - 1 - a) = P a) (u : ℕ) (hu : u < n) :
+    (deconv1dMatrix m (2 * k + 1) P n).apply x u = docConv1 m (2 * k + 1) P n x u := by
+  rw [deconv1d_assembled_transposed _ _ _ _ _ _ hu, ← deconv1d_documented_matrix m _ n hn, apply_eq]
+  refine Finset.sum_congr rfl fun j hj => ?_
+  congr 1
+  have hs : ShiftSymm m n := by
+    rcases hm with rfl | rfl
+    · exact shiftSymm_wrap n
+    · exact shiftSymm_constant n
+  have hj' : j < n := mem_range.mp hj
+  rw [← conv1_flip_transpose m k n P hs j u hj' hu]
+  simp only [conv1, sumTo_eq_sum, flip1]
+  exact Finset.sum_congr rfl fun a ha => by rw [hP a (mem_range.mp ha)]
+
+example : ∀ a, a < 2 * 1 + 1 → (fun a => if a = 1 then (2 : ℤ) else 1) (2 * 1 + 1 - 1 - a) = (fun a => if a = 1 then (2 : ℤ) else 1) a := by
+  decide
+
+/-- **Negative witness (known finding `Deconvolution1D:operator:transposed`).**  Zero boundary, PSF
+    `[1,2,4]`, signal `0..5`: the stored matrix gives `4` at position 0, the documented convolution `1`. -/
+theorem deconv1d_assembled_ne_documented_counterexample :
+    (deconv1dMatrix .constant 3 (fun a => if a = 0 then (1 : ℤ) else if a = 1 then 2 else 4) 6).apply (fun k => (k : ℤ)) 0 = 4 ∧
+    docConv1 .constant 3 (fun a => if a = 0 then (1 : ℤ) else if a = 1 then 2 else 4) 6 (fun k => (k : ℤ)) 0 = 1 := by
+  decide
+
+/-! ## Deconvolution1D, legacy form -/
+
+/-- **legacy_transposed.**  `toeplitz(hflip, h)` with `h = roll(P, −n/2)` has the rolled PSF in its first
+    *row*: the legacy matrix is the transpose of the documented periodic convolution with `P` (centre `n/2`). -/
+theorem legacy_transposed (n : ℕ) (P : ℕ → R) (i j : ℕ) (hi : i < n) (hj : j < n) :
+    (legacyMatrix n P).e i j = (docCirculant n P).e j i := by
+  simp only [legacyMatrix, legacyFromH, toeplitz, hflip, rollHalf, docCirculant]
+  by_cases h1 : j ≤ i
+  · rw [if_pos h1]
+    by_cases h2 : i - j = 0
+    · have : i = j := by omega
+      subst this
+      rw [if_pos h2]
+      congr 1
+      have : i + (n - i) + n / 2 = n / 2 + n := by omega
+      rw [this, Nat.add_mod_right, Nat.zero_add]
+    · rw [if_neg h2]
+      congr 2
+      omega
+  · rw [if_neg h1]
+    congr 1
+    have : j + (n - i) + n / 2 = (j - i + n / 2) + n := by omega
+    rw [this, Nat.add_mod_right]
+
+/-- **legacy_eq_documented_partial.**  Hypothesis forced: a PSF symmetric about its centre entry `n/2`
+    (`P[(n/2 + d) mod n] = P[(n/2 − d) mod n]`) — then the documented circulant is symmetric and the
+    legacy matrix equals it.  (The named legacy PSFs `gauss`, `sinc`, `vonMises` are built that way.) -/
+theorem legacy_eq_documented_partial (n : ℕ) (P : ℕ → R)
+    (hP : ∀ d, d < n → P ((n / 2 + d) % n) = P ((n / 2 + (n - d)) % n)) (i j : ℕ) (hi : i < n) (hj : j < n) :
+    (legacyMatrix n P).e i j = (docCirculant n P).e i j := by
+  rw [legacy_transposed n P i j hi hj]
+  simp only [docCirculant]
+  by_cases h : i ≤ j
+  · -- d = j − i
+    have e1 : (j + (n - i) + n / 2) % n = (n / 2 + (j - i)) % n := by
+      have : j + (n - i) + n / 2 = (n / 2 + (j - i)) + n := by omega
+      rw [this, Nat.add_mod_right]
+    have e2 : (i + (n - j) + n / 2) = n / 2 + (n - (j - i)) := by omega
+    rw [e1, e2]
+    exact hP (j - i) (by omega)
+  · have e1 : (i + (n - j) + n / 2) % n = (n / 2 + (i - j)) % n := by
+      have : i + (n - j) + n / 2 = (n / 2 + (i - j)) + n := by omega
+      rw [this, Nat.add_mod_right]
+    have e2 : (j + (n - i) + n / 2) = n / 2 + (n - (i - j)) := by omega
+    rw [e1, e2]
+    exact (hP (i - j) (by omega)).symm
+
+example : ∀ d, d < 4 → (fun k => if k = 2 then (3 : ℤ) else if k = 1 ∨ k = 3 then 1 else 0) ((4 / 2 + d) % 4)
+    = (fun k => if k = 2 then (3 : ℤ) else if k = 1 ∨ k = 3 then 1 else 0) ((4 / 2 + (4 - d)) % 4) := by decide
+
+/-- **Negative witness (known finding `Deconvolution1D:legacy:operator:transposed:asym`).**  `n = 8`,
+    `P = [1,2,3,0,…]`: the unit pulse at 0 is mapped to `3` at position 2 by the legacy matrix, the
+    documented convolution (PSF centre at entry 4) puts `0` there. -/
+theorem legacy_ne_documented_counterexample :
+    (legacyMatrix 8 (fun a => if a < 3 then ((a : ℕ) : ℤ) + 1 else 0)).e 2 0 = 3 ∧
+    (docCirculant 8 (fun a => if a < 3 then ((a : ℕ) : ℤ) + 1 else 0)).e 2 0 = 0 := by
+  decide
+
+/-- **documented_circulant_eq_convolve1d.**  The two documented forms agree: the periodic convolution
+    on `ℤ/n` with a length-`n` PSF centred at entry `n/2` (`docCirculant`) is the matrix of
+    `convolve1d(·, P, mode='wrap')` for a PSF as long as the signal. -/
+theorem documented_circulant_eq_convolve1d (n : ℕ) (P : ℕ → R) (i j : ℕ) (hi : i < n) (hj : j < n) :
+    (docCirculant n P).e i j = (conv1 .wrap n P n).e i j := by
+  have hn : 0 < n := by omega
+  simp only [docCirculant, conv1, sumTo_eq_sum, hit, extPos, Option.some.injEq]
+  set S : ℕ := i + (n - j) + n / 2 with hS
+  have hdm := Nat.div_add_mod S n
+  have ha0 : S % n < n := Nat.mod_lt _ hn
+  have hSz : (S : ℤ) = (i : ℤ) + ((n : ℤ) - j) + ((n / 2 : ℕ) : ℤ) := by
+    rw [hS]; push_cast [Nat.cast_sub hj.le]; ring
+  have hdz : (n : ℤ) * ((S / n : ℕ) : ℤ) + ((S % n : ℕ) : ℤ) = (S : ℤ) := by exact_mod_cast hdm
+  rw [Finset.sum_eq_single (S % n)]
+  · have : ((i : ℤ) + ((n / 2 : ℕ) : ℤ) - ((S % n : ℕ) : ℤ)) % (n : ℤ) = (j : ℤ) := by
+      rw [emod_eq_iff_dvd n _ j hj]
+      refine ⟨((S / n : ℕ) : ℤ) - 1, ?_⟩
+      linarith
+    rw [if_pos this, mul_one]
+  · intro b hb hne
+    have hbn : b < n := mem_range.mp hb
+    have : ¬ ((i : ℤ) + ((n / 2 : ℕ) : ℤ) - (b : ℤ)) % (n : ℤ) = (j : ℤ) := by
+      intro h
+      rw [emod_eq_iff_dvd n _ j hj] at h
+      obtain ⟨c, hc⟩ := h
+      have hdvd : (n : ℤ) ∣ ((S % n : ℕ) : ℤ) - (b : ℤ) := ⟨c - ((S / n : ℕ) : ℤ) + 1, by linarith⟩
+      have hz : ((S % n : ℕ) : ℤ) - (b : ℤ) = 0 := by
+        apply Int.eq_zero_of_dvd_of_natAbs_lt_natAbs hdvd
+        omega
+      apply hne
+      omega
+    rw [if_neg this, mul_zero]
+  · intro h; exact absurd (mem_range.mpr ha0) h
+
+/-- hence the legacy matrix is the matrix the non-legacy constructor stores for the same PSF with
+    periodic boundary: both are the transpose of the documented operator. -/
+theorem legacy_eq_assembled (n : ℕ) (P : ℕ → R) (i j : ℕ) (hi : i < n) (hj : j < n) :
+    (legacyMatrix n P).e i j = (deconv1dMatrix .wrap n P n).e i j := by
+  rw [legacy_transposed n P i j hi hj, documented_circulant_eq_convolve1d n P j i hj hi]
+  show _ = (conv1 .wrap n P n).apply (unit i) j
+  rw [apply_eq]
+  exact (sum_mul_unit _ _ _ hi).symm
+
+example : (legacyMatrix 8 (fun a => if a < 3 then ((a : ℕ) : ℤ) + 1 else 0)).e 4 1 = 2 := by decide
+
+/-! ## Deconvolution2D -/
+
+lemma sum_range_mul (m n : ℕ) (f : ℕ → R) :
+    ∑ j ∈ range (m * n), f j = ∑ p ∈ range m, ∑ q ∈ range n, f (p * n + q) := by
+  induction m with
+  | zero => simp
+  | succ m ih => rw [Nat.succ_mul, Finset.sum_range_add, ih, Finset.sum_range_succ]
+
+lemma extend_extend (m : Ext) (n : ℕ) (X : ℕ → ℕ → R) (t1 t2 : ℤ) :
+    extend m n (fun p => extend m n (X p) t2) t1 = extend2 m n X t1 t2 := by
+  unfold extend extend2
+  cases extPos m n t1 <;> cases extPos m n t2 <;> rfl
+
+/-- **deconv2d_documented_matrix.**  The matrix of `_proj_forward_2D` (C07's `conv2`: `np.pad` +
+    `fftconvolve(…,'valid')` + even trim) acts on every image as the *documented* operator: the 2-D
+    convolution of the image, extended by the stated boundary rule along both axes, with the stated PSF.
+    (`Deconvolution2D` is matrix-free, so assembled = documented here: no transposition.) -/
+theorem deconv2d_documented_matrix (m : Ext) (s n : ℕ) (hn : 0 < n) (P X : ℕ → ℕ → R) (u v : ℕ) (hv : v < n) :
+    (conv2 m s P n).apply (flat n X) (u * n + v) = docConv2 m s P n X u v := by
+  rw [apply_eq]
+  show ∑ j ∈ range (n * n), (conv2 m s P n).e (u * n + v) j * flat n X j = _
+  rw [sum_range_mul]
+  have hdiv : (u * n + v) / n = u := by
+    rw [Nat.add_comm, Nat.add_mul_div_right _ _ hn, Nat.div_eq_of_lt hv, Nat.zero_add]
+  have hmod : (u * n + v) % n = v := by
+    rw [Nat.add_comm, Nat.add_mul_mod_self_right, Nat.mod_eq_of_lt hv]
+  have hpq : ∀ p q, q < n → (p * n + q) / n = p ∧ (p * n + q) % n = q := by
+    intro p q hq
+    constructor
+    · rw [Nat.add_comm, Nat.add_mul_div_right _ _ hn, Nat.div_eq_of_lt hq, Nat.zero_add]
+    · rw [Nat.add_comm, Nat.add_mul_mod_self_right, Nat.mod_eq_of_lt hq]
+  have step1 : ∀ p ∈ range n, ∀ q ∈ range n,
+      (conv2 m s P n).e (u * n + v) (p * n + q) * flat n X (p * n + q)
+        = ∑ a ∈ range s, ∑ b ∈ range s, P a b *
+            ((hit m n ((u : ℤ) + (s / 2 : ℕ) - (a : ℤ)) p : R) * ((hit m n ((v : ℤ) + (s / 2 : ℕ) - (b : ℤ)) q : R) * X p q)) := by
+    intro p _ q hq
+    obtain ⟨e1, e2⟩ := hpq p q (mem_range.mp hq)
+    simp only [conv2, flat, sumTo_eq_sum, hdiv, hmod, e1, e2, Finset.sum_mul]
+    refine Finset.sum_congr rfl fun a _ => Finset.sum_congr rfl fun b _ => ?_
+    ring
+  rw [Finset.sum_congr rfl fun p hp => Finset.sum_congr rfl fun q hq => step1 p hp q hq]
+  -- bring the PSF sums outside
+  rw [Finset.sum_congr rfl fun p _ => Finset.sum_comm]
+  rw [Finset.sum_comm]
+  simp only [docConv2, sumTo_eq_sum]
+  refine Finset.sum_congr rfl fun a _ => ?_
+  rw [Finset.sum_congr rfl fun p _ => Finset.sum_comm]
+  rw [Finset.sum_comm]
+  refine Finset.sum_congr rfl fun b _ => ?_
+  simp only [← Finset.mul_sum]
+  congr 1
+  rw [← extend_extend, ← sum_hit_mul m n hn]
+  refine Finset.sum_congr rfl fun p _ => ?_
+  congr 1
+  exact sum_hit_mul m n hn _ (X p)
+
+example : docConv2 .wrap 2 (fun a b => ((2 * a + b : ℕ) : ℤ) + 1) 3 (fun i j => if i = 0 ∧ j = 0 then 1 else 0) 0 0 = 4 := by
+  decide
 
 /-! ## Poisson1D -/
 
@@ -42,5 +319,346 @@ theorem poissonD_entry (N : ℕ) (dx : K) (k c : ℕ) :
     · subst h1; simp
     · have h1' : ¬ c = k := fun h => h1 h.symm
       simp [h1, h1']
+
+/-- **poisson_assembled_eq_documented.**  `Dx.T @ diag(κ) @ Dx` — what `Poisson1D` assembles — is the
+    documented conservative three-point stiffness matrix, for every size, spacing and conductivity. -/
+theorem poisson_assembled_eq_documented (N : ℕ) (dx : K) (κ : ℕ → K) (i j : ℕ) (hi : i < N) (hj : j < N) :
+    (poissonAsm N dx κ).e i j = (poissonDoc N dx κ).e i j := by
+  simp only [poissonAsm, sumTo_eq_sum, poissonD_entry, poissonDoc]
+  have key : ∀ k, ((if i = k then (1:K) else 0) - (if i + 1 = k then 1 else 0)) / dx * κ k
+        * (((if j = k then (1:K) else 0) - (if j + 1 = k then 1 else 0)) / dx)
+      = ((if k = i then (if j = i then κ i else 0) else 0)
+        - (if k = i then (if j + 1 = i then κ i else 0) else 0)
+        - (if k = i + 1 then (if j = i + 1 then κ (i + 1) else 0) else 0)
+        + (if k = i + 1 then (if j = i then κ (i + 1) else 0) else 0)) / (dx * dx) := by
+    intro k
+    by_cases h1 : i = k
+    · subst h1
+      by_cases h2 : j = i
+      · subst h2; simp; ring
+      · by_cases h3 : j + 1 = i
+        · simp [h2, h3]; ring
+        · simp [h2, h3]
+    · by_cases h2 : i + 1 = k
+      · subst h2
+        by_cases h3 : j = i + 1
+        · subst h3; simp; ring
+        · by_cases h4 : j = i
+          · subst h4; simp; ring
+          · have : ¬ j + 1 = i + 1 := by omega
+            simp [h3, h4, this]
+      · have h1' : ¬ k = i := fun h => h1 h.symm
+        have h2' : ¬ k = i + 1 := fun h => h2 h.symm
+        simp [h1, h2, h1', h2']
+  simp only [key]
+  rw [← Finset.sum_div]
+  simp only [Finset.sum_add_distrib, Finset.sum_sub_distrib, Finset.sum_ite_eq', mem_range]
+  have a1 : i < N + 1 := by omega
+  have a2 : i + 1 < N + 1 := by omega
+  simp only [a1, a2, if_true]
+  by_cases c1 : j = i
+  · subst c1
+    have f2 : ¬ j + 1 = j := by omega
+    have f3 : ¬ j = j + 1 := by omega
+    simp only [f2, f3, if_true, if_false]; ring
+  · by_cases c2 : j = i + 1
+    · subst c2
+      have f1 : ¬ i + 1 = i := by omega
+      have f2 : ¬ i + 1 + 1 = i := by omega
+      have f3 : ¬ i = i + 1 := by omega
+      simp only [f1, f2, f3, if_true, if_false]; ring
+    · by_cases c3 : i = j + 1
+      · subst c3
+        have f1 : ¬ j = j + 1 := by omega
+        have f2 : ¬ j = j + 1 + 1 := by omega
+        have f3 : ¬ j + 1 = j := by omega
+        simp only [f1, f2, f3, if_true, if_false]; ring
+      · have f1 : ¬ i = j := fun e => c1 e.symm
+        have f2 : ¬ j + 1 = i := fun e => c3 e.symm
+        simp only [c1, c2, c3, f1, f2, if_true, if_false]; ring
+
+example : (poissonAsm 3 (1/4 : ℚ) (fun k => (k : ℚ) + 1)).e 1 2 = -48 := by
+  norm_num [poissonAsm, poissonD, poissonDx0, sumTo]
+
+/-- **poisson_documented_flux_form.**  The documented matrix applied to `u` is the flux difference
+    `(κ_i (u_i − u_{i−1}) − κ_{i+1} (u_{i+1} − u_i)) / dx²` with `u_{−1} = u_N = 0` (homogeneous Dirichlet
+    ends): the conservative discretisation of `−(κ u')' `. -/
+theorem poisson_documented_flux_form (N : ℕ) (dx : K) (κ u : ℕ → K) (i : ℕ) (hi : i < N) :
+    (poissonDoc N dx κ).apply u i
+      = (κ i * (u i - (if i = 0 then 0 else u (i - 1))) - κ (i + 1) * ((if i + 1 < N then u (i + 1) else 0) - u i)) / (dx * dx) := by
+  rw [apply_eq]
+  show ∑ j ∈ range N, (poissonDoc N dx κ).e i j * u j = _
+  have key : ∀ j, (poissonDoc N dx κ).e i j * u j
+      = ((if j = i then (κ i + κ (i + 1)) * u i else 0)
+        - (if j = i + 1 then κ (i + 1) * u (i + 1) else 0)
+        - (if j + 1 = i then κ i * u (i - 1) else 0)) / (dx * dx) := by
+    intro j
+    simp only [poissonDoc]
+    by_cases c1 : i = j
+    · subst c1
+      have f1 : ¬ i = i + 1 := by omega
+      have f2 : ¬ i + 1 = i := by omega
+      simp only [f1, f2, if_true, if_false]; ring
+    · by_cases c2 : j = i + 1
+      · subst c2
+        have f1 : ¬ i + 1 = i := by omega
+        have f2 : ¬ i + 1 + 1 = i := by omega
+        simp only [c1, f1, f2, if_true, if_false]; ring
+      · by_cases c3 : i = j + 1
+        · subst c3
+          have f1 : ¬ j = j + 1 := by omega
+          simp only [c1, c2, f1, if_true, if_false, Nat.add_sub_cancel]; ring
+        · have f1 : ¬ j = i := fun e => c1 e.symm
+          have f2 : ¬ j + 1 = i := fun e => c3 e.symm
+          simp only [c1, c2, c3, f1, f2, if_false]; ring
+  simp only [key]
+  rw [← Finset.sum_div, Finset.sum_sub_distrib, Finset.sum_sub_distrib]
+  simp only [Finset.sum_ite_eq', mem_range, hi, if_true]
+  congr 1
+  have e3 : ∑ j ∈ range N, (if j + 1 = i then κ i * u (i - 1) else 0) = if i = 0 then 0 else κ i * u (i - 1) := by
+    rcases i with _ | i
+    · simp
+    · rw [Finset.sum_eq_single i]
+      · simp
+      · intro b _ hb; have : ¬ b + 1 = i + 1 := by omega
+        rw [if_neg this]
+      · intro h; exact absurd (mem_range.mpr (by omega)) h
+  rw [e3]
+  split_ifs <;> ring
+
+/-! ## Heat1D -/
+
+/-- **heat_step_eq_documented.**  One pass of `TimeDependentLinearPDE.solve` on the `Heat1D` form —
+    `(dt·Dxx + I) u + dt·0` — is the explicit Euler step of `u_t = u_xx` with zero Dirichlet values. -/
+theorem heat_step_eq_documented (N : ℕ) (dx dt : K) (u : ℕ → K) (i : ℕ) (hi : i < N) :
+    heatStep N dx dt u i = heatDocStep N dx dt u i := by
+  unfold heatStep heatDocStep
+  rw [apply_eq]
+  show ∑ j ∈ range N, (heatStepMat N dx dt).e i j * u j + dt * 0 = _
+  have key : ∀ j, (heatStepMat N dx dt).e i j * u j
+      = (if j = i then (1 - dt * (1 + 1) / (dx * dx)) * u i else 0)
+        + (if j + 1 = i then dt / (dx * dx) * u (i - 1) else 0)
+        + (if j = i + 1 then dt / (dx * dx) * u (i + 1) else 0) := by
+    intro j
+    simp only [heatStepMat, heatDxx]
+    by_cases c1 : i = j
+    · subst c1
+      have f1 : ¬ i = i + 1 := by omega
+      have f2 : ¬ i + 1 = i := by omega
+      simp only [f1, f2, if_true, if_false]; ring
+    · by_cases c2 : j = i + 1
+      · subst c2
+        have f1 : ¬ i + 1 = i := by omega
+        have f2 : ¬ i = i + 1 + 1 := by omega
+        have f3 : ¬ i + 1 + 1 = i := by omega
+        simp only [c1, f1, f2, f3, if_true, if_false]; ring
+      · by_cases c3 : i = j + 1
+        · subst c3
+          have f1 : ¬ j = j + 1 := by omega
+          simp only [c1, c2, f1, if_true, if_false, Nat.add_sub_cancel]; ring
+        · have f1 : ¬ j = i := fun e => c1 e.symm
+          have f2 : ¬ j + 1 = i := fun e => c3 e.symm
+          simp only [c1, c2, c3, f1, f2, if_false]; ring
+  simp only [key, Finset.sum_add_distrib, Finset.sum_ite_eq', mem_range, hi, if_true]
+  have e2 : ∑ j ∈ range N, (if j + 1 = i then dt / (dx * dx) * u (i - 1) else 0)
+      = if i = 0 then 0 else dt / (dx * dx) * u (i - 1) := by
+    rcases i with _ | i
+    · simp
+    · rw [Finset.sum_eq_single i]
+      · simp
+      · intro b _ hb; have : ¬ b + 1 = i + 1 := by omega
+        rw [if_neg this]
+      · intro h; exact absurd (mem_range.mpr (by omega)) h
+  rw [e2]
+  split_ifs <;> ring
+
+/-- **heat_solve_recurrence.**  Level 0 of the stored solution is the initial condition and every
+    further level is the documented Euler step of the previous one (all step counts, by induction). -/
+theorem heat_solve_recurrence (N : ℕ) (dx dt : K) (u0 : ℕ → K) (k i : ℕ) (hi : i < N) :
+    heatSolve N dx dt 0 u0 i = u0 i ∧
+    heatSolve N dx dt (k + 1) u0 i = heatDocStep N dx dt (heatSolve N dx dt k u0) i :=
+  ⟨rfl, heat_step_eq_documented N dx dt _ i hi⟩
+
+example : heatSolve 3 (1/4 : ℚ) (1/40) 1 (fun i => if i = 0 then 1 else 0) 1 = 2/5 := by
+  norm_num [heatSolve, heatStep, heatStepMat, heatDxx, LMat.apply, sumTo]
+
+/-- **heat_maxIter_spec.**  The number of time steps is the CFL-derived count: the largest `k` with
+    `k · (5/11) dx² ≤ max_time`. -/
+theorem heat_maxIter_spec (T dx : ℚ) (hT : 0 ≤ T) (hdx : dx ≠ 0) :
+    (heatMaxIter T dx : ℚ) * (5 / 11 * (dx * dx)) ≤ T ∧ T < ((heatMaxIter T dx : ℚ) + 1) * (5 / 11 * (dx * dx)) := by
+  have ha : (0 : ℚ) < 5 / 11 * (dx * dx) := by have := mul_self_pos.mpr hdx; positivity
+  set a : ℚ := 5 / 11 * (dx * dx) with ha_def
+  have hq : 0 ≤ T / a := div_nonneg hT ha.le
+  have hfl : (0 : ℤ) ≤ ⌊T / a⌋ := Int.floor_nonneg.mpr hq
+  have hk : (heatMaxIter T dx : ℚ) = ((⌊T / a⌋ : ℤ) : ℚ) := by
+    unfold heatMaxIter
+    show (((T / a).floor.toNat : ℕ) : ℚ) = _
+    have : (T / a).floor = ⌊T / a⌋ := rfl
+    rw [this]
+    have h2 : ((⌊T / a⌋.toNat : ℕ) : ℤ) = ⌊T / a⌋ := Int.toNat_of_nonneg hfl
+    exact_mod_cast congrArg (fun z : ℤ => (z : ℚ)) h2
+  rw [hk]
+  constructor
+  · have := Int.floor_le (T / a)
+    calc ((⌊T / a⌋ : ℤ) : ℚ) * a ≤ T / a * a := by gcongr
+      _ = T := by field_simp
+  · have := Int.lt_floor_add_one (T / a)
+    calc T = T / a * a := by field_simp
+      _ < (((⌊T / a⌋ : ℤ) : ℚ) + 1) * a := by gcongr
+
+example : heatMaxIter (1/5) (1/5) = 11 := by decide +kernel
+
+/-- **heat_cfl_stable.**  With at least 10 time steps the actual step `max_time / max_iter` of the
+    `linspace` time grid keeps the explicit scheme inside its stability bound `dt / dx² ≤ 1/2`
+    (the step is `≥` the nominal `5/11 · dx²`, never smaller). -/
+theorem heat_cfl_stable (T dx : ℚ) (hT : 0 ≤ T) (hdx : dx ≠ 0) (hk : 10 ≤ heatMaxIter T dx) :
+    5 / 11 ≤ heatDt T (heatMaxIter T dx) / (dx * dx) ∧ heatDt T (heatMaxIter T dx) / (dx * dx) ≤ 1 / 2 := by
+  obtain ⟨h1, h2⟩ := heat_maxIter_spec T dx hT hdx
+  have hd : (0 : ℚ) < dx * dx := mul_self_pos.mpr hdx
+  have hkq : (10 : ℚ) ≤ (heatMaxIter T dx : ℚ) := by exact_mod_cast hk
+  set k : ℚ := (heatMaxIter T dx : ℚ) with hk_def
+  have hkpos : (0 : ℚ) < k := by linarith
+  unfold heatDt
+  rw [← hk_def]
+  constructor
+  · rw [le_div_iff₀ hd, le_div_iff₀ hkpos]; nlinarith
+  · rw [div_le_iff₀ hd, div_le_iff₀ hkpos]; nlinarith
+
+/-! ## Abel1D -/
+
+/-- **abel_assembled_eq_documented.**  The entries C07's `abelSq` carries (`h/(i−j+½)` for `j ≤ i`) are
+    the squares of the documented quadrature weights `h/√(s_i − t_j)` on the mask `t_j < s_i`, and
+    the mask is exactly `j ≤ i`. -/
+theorem abel_assembled_eq_documented (n : ℕ) (ep : ℚ) (hep : 0 < ep) (hn : 0 < n) (i j : ℕ) :
+    (abelSq n ep).e i j = (abelDocSq n ep).e i j ∧ (abelMask n ep i j = true ↔ j ≤ i) := by
+  have hh : (0 : ℚ) < ep / n := div_pos hep (by exact_mod_cast hn)
+  set h : ℚ := ep / n with hdef
+  have hmask : abelMask n ep i j = true ↔ j ≤ i := by
+    unfold abelMask abelS abelT
+    rw [decide_eq_true_iff, ← hdef]
+    constructor
+    · intro hlt
+      by_contra hcon
+      have : (i : ℚ) + 1 ≤ j := by exact_mod_cast Nat.succ_le_of_lt (Nat.lt_of_not_le hcon)
+      nlinarith
+    · intro hle
+      have : (j : ℚ) ≤ i := by exact_mod_cast hle
+      nlinarith
+  refine ⟨?_, hmask⟩
+  unfold abelSq abelDocSq
+  simp only []
+  by_cases hji : j ≤ i
+  · rw [if_pos hji, if_pos (hmask.mpr hji)]
+    unfold abelS abelT
+    rw [← hdef]
+    have hc : ((i - j : ℕ) : ℚ) = (i : ℚ) - j := by push_cast [Nat.cast_sub hji]; ring
+    rw [hc]
+    have hpos : (0 : ℚ) < (i : ℚ) - j + 1 / 2 := by
+      have : (j : ℚ) ≤ i := by exact_mod_cast hji
+      linarith
+    have e : h / 2 + ↑i * h + h / 2 - (h / 2 + ↑j * h) = h * ((i : ℚ) - j + 1 / 2) := by ring
+    rw [e]
+    field_simp
+  · have : ¬ abelMask n ep i j = true := fun h' => hji (hmask.mp h')
+    rw [if_neg hji, if_neg this]
+
+example : (abelSq 3 1).e 2 0 = 2 / 15 := by norm_num [abelSq]
+
+/-! ## WangCubic -/
+
+open RExpr in
+/-- **wang_forward_eq_documented.**  The coded forward map is the cubic `10 x₁ − 10 x₀³ + 5 x₀² + 6 x₀`. -/
+theorem wang_forward_eq_documented (ρ : ℕ → ℝ) :
+    eval ρ wangF = 10 * ρ 1 - 10 * ρ 0 ^ 3 + 5 * ρ 0 ^ 2 + 6 * ρ 0 := by
+  simp [wangF]
+
+open RExpr in
+/-- **wang_jacobian.**  The coded Jacobian `[[−30 x₀² + 10 x₀ + 6, 10]]` is the derivative of the coded
+    forward map in each coordinate, at every point (via the `RExpr` master theorem). -/
+theorem wang_jacobian (ρ : ℕ → ℝ) :
+    HasDerivAt (fun t => eval (Function.update ρ 0 t) wangF) (eval ρ (wangJ.getD 0 0)) (ρ 0) ∧
+    HasDerivAt (fun t => eval (Function.update ρ 1 t) wangF) (eval ρ (wangJ.getD 1 0)) (ρ 1) := by
+  have hs0 : Safe 0 ρ wangF := by simp [wangF]
+  have hs1 : Safe 1 ρ wangF := by simp [wangF]
+  constructor
+  · refine (hasDerivAt_deriv 0 ρ wangF hs0).congr_deriv ?_
+    simp [wangF, wangJ, RExpr.deriv, eval]
+    ring
+  · refine (hasDerivAt_deriv 1 ρ wangF hs1).congr_deriv ?_
+    simp [wangF, wangJ, RExpr.deriv, eval]
+
+example : RExpr.evalQ (RExpr.envQ [1, 2]) wangF = some 21 := by decide +kernel
+
+/-! ## data generation -/
+
+/-- **noise_affine_gaussian.**  `noise_type = "gaussian"`: the sampling path of
+    `Gaussian(model(x), noise_std²)` (`mean + e / (1/√cov)`) gives `exactData + |σ|·ξ`: the data differ
+    from the exact data by the stated level times the standard-normal draw. -/
+theorem noise_affine_gaussian (σ : ℝ) (hσ : σ ≠ 0) (y ξ : ℕ → ℝ) (i : ℕ) :
+    samplePath Real.sqrt (covGaussian σ) y ξ i = docData false (fun t => |t|) |σ| y ξ i := by
+  unfold samplePath covGaussian docData
+  simp only [Bool.false_eq_true, if_false]
+  rw [Real.sqrt_mul_self_eq_abs]
+  have : |σ| ≠ 0 := abs_ne_zero.mpr hσ
+  field_simp
+
+/-- **noise_scaled_partial.**  `noise_type = "scaledGaussian"`: wherever the exact datum is non-zero the
+    sampling path of `Gaussian(model(x), (y·σ)²)` gives `y_i + |σ|·|y_i|·ξ_i`.  The hypothesis `y i ≠ 0`
+    is forced: for `y i = 0` the variance is 0 and the code divides by zero (known finding). -/
+theorem noise_scaled_partial (σ : ℝ) (hσ : σ ≠ 0) (y ξ : ℕ → ℝ) (i : ℕ) (hy : y i ≠ 0) :
+    samplePath Real.sqrt (covScaled σ y) y ξ i = docData true (fun t => |t|) |σ| y ξ i := by
+  unfold samplePath covScaled docData
+  simp only [if_true]
+  rw [Real.sqrt_mul_self_eq_abs, abs_mul]
+  have h1 : |σ| ≠ 0 := abs_ne_zero.mpr hσ
+  have h2 : |y i| ≠ 0 := abs_ne_zero.mpr hy
+  field_simp
+
+/-- the variance of the scaled noise vanishes exactly where the exact datum (or the level) does -/
+theorem noise_scaled_zero_cov_iff (σ : K) (y : ℕ → K) (i : ℕ) : covScaled σ y i = 0 ↔ y i = 0 ∨ σ = 0 := by
+  unfold covScaled
+  simp [mul_self_eq_zero]
+
+example : samplePath sqrtQ (covScaled (1/2) (fun _ => (-10 : ℚ))) (fun _ => -10) (fun _ => -1) 0 = -15 := by
+  decide +kernel
+
+/-- **noise_affine_normal.**  Poisson1D / Heat1D / Abel1D: `data − exactData = σ·ξ` (`np.random.normal(0, σ)`). -/
+theorem noise_affine_normal (σ : K) (y ξ : ℕ → K) (i : ℕ) : dataNormal σ y ξ i - y i = σ * ξ i := by
+  unfold dataNormal; ring
+
+/-- **snr_sigma.**  A noise level accepted by the certificate with zero tolerance is `‖exactData‖ / SNR`. -/
+theorem snr_sigma (σ snr : ℚ) (y : List ℚ) (hsnr : 0 < snr) (h : snrSigmaOk σ snr 0 y = true) :
+    (σ : ℝ) = Real.sqrt ((QMat.norm2 y : ℚ) : ℝ) / (snr : ℝ) := by
+  unfold snrSigmaOk at h
+  simp only [Bool.and_eq_true, decide_eq_true_eq, zero_mul] at h
+  obtain ⟨h0, h1⟩ := h
+  have hd : σ * σ * snr * snr - QMat.norm2 y = 0 := by
+    by_cases hneg : σ * σ * snr * snr - QMat.norm2 y < 0
+    · rw [if_pos hneg] at h1; linarith
+    · rw [if_neg hneg] at h1; linarith
+  have hn : (QMat.norm2 y : ℚ) = (σ * snr) * (σ * snr) := by linarith
+  rw [hn]
+  have hpos : (0 : ℝ) ≤ (σ : ℝ) * (snr : ℝ) := by
+    have : (0 : ℚ) ≤ σ * snr := mul_nonneg h0 hsnr.le
+    exact_mod_cast this
+  have hsr : (0 : ℝ) < (snr : ℝ) := by exact_mod_cast hsnr
+  push_cast
+  rw [Real.sqrt_mul_self hpos]
+  field_simp
+
+example : snrSigmaOk (1/2) 10 0 [3, 4] = true := by decide +kernel
+
+/-! ## component plumbing -/
+
+/-- **components_coherent.**  For every test problem and both construction paths, `get_components()`
+    returns the model found inside the likelihood's data distribution and the data the likelihood was
+    conditioned on, the posterior's prior is the prior handed in, and the exact values / info fields are
+    the constructor's own attributes (absent exactly for the problems that do not set them). -/
+theorem components_coherent (p : Problem) :
+    (getComponents p).model = .model ∧ (getComponents p).data = .data ∧
+    (mkTarget p.path).getPrior = .prior ∧ (mkTarget p.path).likelihood.dist = .dataDist ∧
+    ((getComponents p).exactData = .exactData ↔ p ≠ .wangCubic) ∧
+    ((getComponents p).exactSolution = .exactSolution ↔ p ≠ .wangCubic) := by
+  cases p <;> decide
 
 end CuqiVerif.C17
